@@ -22,7 +22,8 @@ from typing import Tuple
 from .model import MUTATORS, attr_chain, walk_no_nested
 
 PRESERVING_CALLS = {"list", "tuple", "copy.copy", "copy.deepcopy", "deepcopy", "np.array", "np.asarray", "numpy.array", "numpy.asarray"}
-REORDERING_CALLS = {"sorted", "reversed", "set", "frozenset", "filter", "map", "zip", "enumerate"}
+REORDERING_CALLS = {"filter", "map", "zip", "enumerate"}  # a different kind of sequence altogether
+PERMUTING_CALLS = {"sorted", "reversed", "set", "frozenset"}  # same elements, possibly another order / multiplicity: not decided here
 
 
 def _params(fn: ast.FunctionDef):
@@ -146,6 +147,8 @@ def root_of(fn: ast.FunctionDef, expr: ast.expr, depth: int = 8, _seen=None) -> 
             return root_of(fn, expr.func.value, depth - 1, _seen)
         if cn in REORDERING_CALLS:
             return ("broken", expr, f"{cn}(...) builds a different sequence")
+        if cn in PERMUTING_CALLS:
+            return ("unknown", expr, f"{cn}(...) may reorder or merge the elements - whether that matters is not decided statically")
         return ("call", expr)
     if isinstance(expr, (ast.ListComp, ast.GeneratorExp)):
         if len(expr.generators) != 1:
